@@ -1,5 +1,12 @@
 import Toq.Proofs.Discrim
 import Toq.Proofs.Metrics
+import Toq.Proofs.DiscrimStrong
+import Toq.Proofs.DiscrimEldar
+import Toq.Proofs.RandBK
+import Toq.Proofs.RandPgm
+import Toq.Proofs.DiscrimArgs
+import Toq.Proofs.DiscrimTwo
+import Toq.Proofs.DiscrimGram
 /-!
 # C10 — quantum state discrimination: weak duality and soundness of the certificate checkers
 
@@ -18,8 +25,24 @@ value `≥` every prior and `≤ 1`, `= 1` for mutually orthogonal states, invar
 under relabelling (as equality of the sets of attainable values `minErrValues`), the pretty good measurement is a
 POVM below every dual bound, the Helstrom formula for two states (with the trace norm of C13), and for the
 Gram-form unambiguous program: value `0` for linearly dependent states, `≤ Σ p_i`, and `1 − |⟨ψ|φ⟩|` for two
-equiprobable pure states.  Not proved (cited; checked numerically by the harness): unambiguous `≤` minimum-error
-value (needs Eldar's reduction of the Gram program to a POVM), Barnum–Knill `P_opt² ≤ P_pgm`.
+equiprobable pure states.
+
+Third part (after the second group of examples): **strong duality with attainment on both sides** for minimum-error
+discrimination (`minErr_strong_duality`, `minErr_primal_dual_agree`), the duality gap and complementary slackness, the
+**Holevo–Yuen–Kennedy–Lax optimality conditions as an iff** (`minErr_hykl_iff`), Barnum–Knill `P_opt² ≤ P_pgm`
+(`minErr_sq_le_pgm`, from `Toq.Rand.barnum_knill` of C19), **Eldar's reduction in both directions** – the Gram-form program
+toqito solves has exactly the success probabilities of unambiguous measurements as its values, for arbitrary (also
+linearly dependent) pure states (`unamb_values_eq_measurement_values`) – and with it **unambiguous `≤` minimum-error**
+(`unamb_le_minErr`); gap formula / KKT conditions for the Gram program; **strong duality of the Gram-form program for
+linearly independent states and positive priors** (`unamb_strong_duality`, `unamb_primal_dual_agree`); two pure states with
+arbitrary priors (Jaeger–Shimony, three regimes); and **no duality gap for every PSD Gram matrix and every prior `≥ 0`**
+(`unamb_no_gap`: the primal maximum is attained and equals the dual infimum; for dependent states the dual infimum need not be
+attained); perfect discrimination iff mutual orthogonality (`minErr_eq_one_iff_orthogonal`).
+
+Fourth part: the code around the solver call, mirrored in `Toq.Model.DiscrimArgs` – argument check and dispatch
+(`sd_front_eq`, `sd_dispatch`), default prior, `to_density_matrix` / `vectors_to_gram_matrix` denote `|ψ_j⟩⟨ψ_j|` / `VᴴV`
+(`sd_gram_and_density`), the certified form of "unambiguous `≤` minimum-error" on the code's own data
+(`sd_unamb_le_minErr_certified`), and `is_distinguishable`'s `np.isclose(·, 1)` (`sd_dist_test_*`).
 -/
 
 open Matrix
@@ -609,5 +632,810 @@ example : ‖(⟨0, 3 / 5⟩ : ℂ)‖ ≤ 1 := by
   norm_num
 
 end Examples2
+
+/-! # Third part: the optimum is attained, primal = dual, optimality conditions, Eldar's reduction -/
+
+/-! ## Minimum-error discrimination: attainment, strong duality, Holevo–Yuen–Kennedy–Lax -/
+
+/-- the set of objective values `Re tr Y` of dual-feasible operators -/
+def minErrDualValues (ρ : Fin k → Matrix (Fin d) (Fin d) ℂ) (p : Fin k → ℝ) : Set ℝ :=
+  {v | ∃ Y : Matrix (Fin d) (Fin d) ℂ, MinErrDualFeasible ρ p Y ∧ Y.trace.re = v}
+
+/-- `Γ = Σ_i p_i ρ_i M_i`, the Lagrange operator of a measurement -/
+def lagrangeOp (ρ : Fin k → Matrix (Fin d) (Fin d) ℂ) (p : Fin k → ℝ)
+    (M : Fin k → Matrix (Fin d) (Fin d) ℂ) : Matrix (Fin d) (Fin d) ℂ :=
+  ∑ i, ((p i : ℂ) • ρ i) * M i
+
+/-- `M` attains the minimum-error value: no measurement succeeds more often -/
+def IsOptimalMeasurement (ρ : Fin k → Matrix (Fin d) (Fin d) ℂ) (p : Fin k → ℝ)
+    (M : Fin k → Matrix (Fin d) (Fin d) ℂ) : Prop :=
+  IsPOVM M ∧ ∀ M', IsPOVM M' → successProb ρ p M' ≤ successProb ρ p M
+
+/-- The success probability is the generic linear functional `Σ_i Re tr(A_i M_i)` of `Toq.Proofs.DiscrimStrong` at the weighted
+states `A_i = p_i ρ_i` (the bridge through which the index-type generic results – also usable for state exclusion with
+`A_i = −p_i ρ_i` – are applied here). -/
+theorem successProb_eq_meVal (ρ : Fin k → Matrix (Fin d) (Fin d) ℂ) (p : Fin k → ℝ)
+    (M : Fin k → Matrix (Fin d) (Fin d) ℂ) :
+    successProb ρ p M = meVal (fun i => (p i : ℂ) • ρ i) M := by
+  unfold successProb meVal
+  exact Finset.sum_congr rfl fun i _ => (re_trace_smul_mul (p i) (ρ i) (M i)).symm
+
+/-- Real multiples of Hermitian states are Hermitian (the only property of `p_i ρ_i` the duality theorems use). -/
+theorem weighted_hermitian (ρ : Fin k → Matrix (Fin d) (Fin d) ℂ) (p : Fin k → ℝ)
+    (hρ : ∀ i, (ρ i).IsHermitian) (i : Fin k) : ((p i : ℂ) • ρ i)ᴴ = (p i : ℂ) • ρ i := by
+  rw [conjTranspose_smul, (hρ i).eq]
+  simp
+
+/-- **The optimum is attained.**  For `k ≥ 1` states (no assumption on `ρ`, `p`) some measurement succeeds at least as
+often as every other one: the minimum-error value is a maximum, not only a supremum. -/
+theorem minErr_max_attained (ρ : Fin k → Matrix (Fin d) (Fin d) ℂ) (p : Fin k → ℝ) (hk : 0 < k) :
+    ∃ M, IsOptimalMeasurement ρ p M := by
+  have : Nonempty (Fin k) := ⟨⟨0, hk⟩⟩
+  obtain ⟨M, hM, hopt⟩ := me_max_attained (fun i => (p i : ℂ) • ρ i)
+  refine ⟨M, hM, fun M' hM' => ?_⟩
+  rw [successProb_eq_meVal, successProb_eq_meVal]
+  exact hopt M' hM'.1 hM'.2
+
+/-- … hence the set of attainable success probabilities has a greatest element. -/
+theorem minErr_values_has_greatest (ρ : Fin k → Matrix (Fin d) (Fin d) ℂ) (p : Fin k → ℝ) (hk : 0 < k) :
+    ∃ v, IsGreatest (minErrValues ρ p) v := by
+  obtain ⟨M, hM, hopt⟩ := minErr_max_attained ρ p hk
+  refine ⟨successProb ρ p M, ⟨M, hM, rfl⟩, ?_⟩
+  rintro v ⟨M', hM', rfl⟩
+  exact hopt M' hM'
+
+/-- **The duality gap.**  For operators `M_i` summing to the identity and any `Y`:
+`Re tr Y − Σ_i p_i Re tr(ρ_i M_i) = Σ_i Re tr((Y − p_i ρ_i) M_i)`; for a measurement and a dual-feasible `Y` every term on the
+right is non-negative. -/
+theorem minErr_gap_eq (ρ : Fin k → Matrix (Fin d) (Fin d) ℂ) (p : Fin k → ℝ)
+    (M : Fin k → Matrix (Fin d) (Fin d) ℂ) (Y : Matrix (Fin d) (Fin d) ℂ) (hsum : ∑ i, M i = 1) :
+    Y.trace.re - successProb ρ p M = ∑ i, ((Y - (p i : ℂ) • ρ i) * M i).trace.re := by
+  rw [successProb_eq_meVal]
+  exact me_gap_eq _ M Y hsum
+
+/-- **Primal and dual agree exactly under complementary slackness.**  For a measurement `M` and a dual-feasible `Y`: the
+success probability of `M` equals `Re tr Y` iff `(Y − p_i ρ_i) M_i = 0` for every `i`. -/
+theorem minErr_primal_eq_dual_iff (ρ : Fin k → Matrix (Fin d) (Fin d) ℂ) (p : Fin k → ℝ)
+    (M : Fin k → Matrix (Fin d) (Fin d) ℂ) (Y : Matrix (Fin d) (Fin d) ℂ) (hM : IsPOVM M)
+    (hY : MinErrDualFeasible ρ p Y) :
+    successProb ρ p M = Y.trace.re ↔ ∀ i, (Y - (p i : ℂ) • ρ i) * M i = 0 := by
+  rw [successProb_eq_meVal]
+  exact me_zero_gap_iff _ M Y hM.1 hM.2 hY
+
+/-- **Optimality certificate.**  If a measurement `M` and a dual-feasible `Y` satisfy complementary slackness, `Re tr Y` is
+the greatest attainable success probability (attained by `M`) and the least dual value (attained by `Y`). -/
+theorem minErr_optimal_of_slackness (ρ : Fin k → Matrix (Fin d) (Fin d) ℂ) (p : Fin k → ℝ)
+    (M : Fin k → Matrix (Fin d) (Fin d) ℂ) (Y : Matrix (Fin d) (Fin d) ℂ) (hM : IsPOVM M)
+    (hY : MinErrDualFeasible ρ p Y) (hs : ∀ i, (Y - (p i : ℂ) • ρ i) * M i = 0) :
+    IsGreatest (minErrValues ρ p) Y.trace.re ∧ IsLeast (minErrDualValues ρ p) Y.trace.re := by
+  have hv := (minErr_primal_eq_dual_iff ρ p M Y hM hY).mpr hs
+  refine ⟨⟨⟨M, hM, hv⟩, ?_⟩, ⟨⟨Y, hY, rfl⟩, ?_⟩⟩
+  · rintro v ⟨M', hM', rfl⟩
+    exact minErr_weak_duality ρ p M' Y hM' hY
+  · rintro v ⟨Y', hY', rfl⟩
+    rw [← hv]
+    exact minErr_weak_duality ρ p M Y' hM hY'
+
+/-- **Strong duality with attainment on both sides.**  For `k ≥ 1` Hermitian states and real priors there are a measurement
+`M` and a Hermitian dual-feasible operator `Y` (`Y ⪰ p_i ρ_i` for all `i`) with `Σ_i p_i Re tr(ρ_i M_i) = Re tr Y`.  (`Y` is the
+Hermitian part of `Σ_i p_i ρ_i M_i` at a maximiser `M`; were `Y − p_j ρ_j` not PSD, moving `M` by
+`M_i ↦ (1 − t xx†) M_i (1 − t xx†) + δ_ij t(2 − t‖x‖²) xx†` along a negative direction `x` would increase the value.) -/
+theorem minErr_strong_duality (ρ : Fin k → Matrix (Fin d) (Fin d) ℂ) (p : Fin k → ℝ)
+    (hρ : ∀ i, (ρ i).IsHermitian) (hk : 0 < k) :
+    ∃ (M : Fin k → Matrix (Fin d) (Fin d) ℂ) (Y : Matrix (Fin d) (Fin d) ℂ),
+      IsPOVM M ∧ Y.IsHermitian ∧ MinErrDualFeasible ρ p Y ∧ successProb ρ p M = Y.trace.re := by
+  have : Nonempty (Fin k) := ⟨⟨0, hk⟩⟩
+  obtain ⟨M, Y, hM, hYh, hY, hv⟩ := me_strong_duality_gen (fun i => (p i : ℂ) • ρ i) (weighted_hermitian ρ p hρ)
+  exact ⟨M, Y, hM, hYh, hY, by rw [successProb_eq_meVal]; exact hv⟩
+
+/-- **Primal and dual formulations agree.**  For `k ≥ 1` Hermitian states: one number `v` is at the same time the greatest
+success probability attained by a measurement and the least value `Re tr Y` of a dual-feasible operator. -/
+theorem minErr_primal_dual_agree (ρ : Fin k → Matrix (Fin d) (Fin d) ℂ) (p : Fin k → ℝ)
+    (hρ : ∀ i, (ρ i).IsHermitian) (hk : 0 < k) :
+    ∃ v, IsGreatest (minErrValues ρ p) v ∧ IsLeast (minErrDualValues ρ p) v := by
+  obtain ⟨M, Y, hM, -, hY, hv⟩ := minErr_strong_duality ρ p hρ hk
+  exact ⟨Y.trace.re, minErr_optimal_of_slackness ρ p M Y hM hY
+    ((minErr_primal_eq_dual_iff ρ p M Y hM hY).mp hv)⟩
+
+/-- Consequently the certified intervals can be arbitrarily tight: the supremum of the lower bounds `successProb ρ p M`
+equals the infimum of the upper bounds `Re tr Y`. -/
+theorem minErr_sSup_eq_sInf (ρ : Fin k → Matrix (Fin d) (Fin d) ℂ) (p : Fin k → ℝ)
+    (hρ : ∀ i, (ρ i).IsHermitian) (hk : 0 < k) :
+    sSup (minErrValues ρ p) = sInf (minErrDualValues ρ p) := by
+  obtain ⟨v, h1, h2⟩ := minErr_primal_dual_agree ρ p hρ hk
+  rw [h1.csSup_eq, h2.csInf_eq]
+
+/-- **Holevo–Yuen–Kennedy–Lax conditions.**  For Hermitian states, a measurement `M` attains the minimum-error value **iff**
+its Lagrange operator `Γ = Σ_i p_i ρ_i M_i` is Hermitian and `Γ ⪰ p_j ρ_j` for every `j`.  (Then `Γ` is the optimal dual
+operator and `Re tr Γ` the value.) -/
+theorem minErr_hykl_iff (ρ : Fin k → Matrix (Fin d) (Fin d) ℂ) (p : Fin k → ℝ)
+    (hρ : ∀ i, (ρ i).IsHermitian) (M : Fin k → Matrix (Fin d) (Fin d) ℂ) (hM : IsPOVM M) :
+    IsOptimalMeasurement ρ p M ↔
+      (lagrangeOp ρ p M).IsHermitian ∧ MinErrDualFeasible ρ p (lagrangeOp ρ p M) := by
+  have h := me_hykl_iff_gen (fun i => (p i : ℂ) • ρ i) M (weighted_hermitian ρ p hρ) hM.1 hM.2
+  constructor
+  · rintro ⟨-, hopt⟩
+    refine h.mp fun M' h1 h2 => ?_
+    rw [← successProb_eq_meVal, ← successProb_eq_meVal]
+    exact hopt M' ⟨h1, h2⟩
+  · intro hG
+    refine ⟨hM, fun M' hM' => ?_⟩
+    rw [successProb_eq_meVal, successProb_eq_meVal]
+    exact h.mpr hG M' hM'.1 hM'.2
+
+/-- At an optimal measurement the Lagrange operator is the optimal dual operator: `Re tr Γ` is the value and
+`(Γ − p_i ρ_i) M_i = 0` for every `i`. -/
+theorem minErr_lagrange_value (ρ : Fin k → Matrix (Fin d) (Fin d) ℂ) (p : Fin k → ℝ)
+    (M : Fin k → Matrix (Fin d) (Fin d) ℂ) : (lagrangeOp ρ p M).trace.re = successProb ρ p M := by
+  rw [successProb_eq_meVal, meVal_eq_trace_gamma]
+  rfl
+
+/-- **Barnum–Knill: the pretty good measurement is nearly optimal.**  For PSD states, priors `≥ 0` and PSD `S` with
+`S (Σ_i p_i ρ_i) S = 1`: every measurement `M` has `P(M)² ≤ P_pgm · Re tr(Σ_i p_i ρ_i)` (`= P_pgm` for normalised ensembles),
+where `P_pgm` is the success probability of `S (p_i ρ_i) S`.  With `pgm_le_dual`: `P_opt² ≤ P_pgm ≤ P_opt`. -/
+theorem minErr_sq_le_pgm (ρ : Fin k → Matrix (Fin d) (Fin d) ℂ) (p : Fin k → ℝ)
+    (S : Matrix (Fin d) (Fin d) ℂ) (hρ : ∀ i, (ρ i).PosSemidef) (hp : ∀ i, 0 ≤ p i) (hS : S.PosSemidef)
+    (hSPS : S * (∑ i, (p i : ℂ) • ρ i) * S = 1) (M : Fin k → Matrix (Fin d) (Fin d) ℂ) (hM : IsPOVM M) :
+    successProb ρ p M ^ 2
+      ≤ successProb ρ p (fun i => S * ((p i : ℂ) • ρ i) * S) * (∑ i, p i * (ρ i).trace.re) := by
+  have h := Toq.Rand.barnum_knill (fun i => (p i : ℂ) • ρ i) M S (fun i => me_psd_smul (hρ i) (hp i)) hS hSPS hM
+  rw [successProb_eq_meVal, successProb_eq_meVal, ← me_trace_sum_smul]
+  exact h
+
+/-- Normalised form: for density operators and a probability vector, `P(M)² ≤ P_pgm` for every measurement `M`. -/
+theorem minErr_sq_le_pgm_normalised (ρ : Fin k → Matrix (Fin d) (Fin d) ℂ) (p : Fin k → ℝ)
+    (S : Matrix (Fin d) (Fin d) ℂ) (hρ : ∀ i, (ρ i).PosSemidef) (htr : ∀ i, (ρ i).trace = 1)
+    (hp : ∀ i, 0 ≤ p i) (hsum : ∑ i, p i = 1) (hS : S.PosSemidef)
+    (hSPS : S * (∑ i, (p i : ℂ) • ρ i) * S = 1) (M : Fin k → Matrix (Fin d) (Fin d) ℂ) (hM : IsPOVM M) :
+    successProb ρ p M ^ 2 ≤ successProb ρ p (fun i => S * ((p i : ℂ) • ρ i) * S) := by
+  have h := minErr_sq_le_pgm ρ p S hρ hp hS hSPS M hM
+  have e : ∑ i, p i * (ρ i).trace.re = 1 := by simp [htr, hsum]
+  rwa [e, mul_one] at h
+
+/-- **The pretty good measurement exists and is nearly optimal.**  For density operators whose average state
+`Σ_i p_i ρ_i` is positive definite (the states span the space) and a probability vector: the normaliser
+`S = (Σ_i p_i ρ_i)^{-1/2}` exists, `S (p_i ρ_i) S` is a measurement, and with `v` the minimum-error value (greatest attained
+success probability) `v² ≤ P_pgm ≤ v`. -/
+theorem minErr_pgm_sandwich (ρ : Fin k → Matrix (Fin d) (Fin d) ℂ) (p : Fin k → ℝ)
+    (hρ : ∀ i, (ρ i).PosSemidef) (htr : ∀ i, (ρ i).trace = 1) (hp : ∀ i, 0 ≤ p i) (hsum : ∑ i, p i = 1)
+    (hP : (∑ i, (p i : ℂ) • ρ i).PosDef) (v : ℝ) (hv : IsGreatest (minErrValues ρ p) v) :
+    ∃ S : Matrix (Fin d) (Fin d) ℂ, S.PosSemidef ∧ S * (∑ i, (p i : ℂ) • ρ i) * S = 1 ∧
+      IsPOVM (fun i => S * ((p i : ℂ) • ρ i) * S) ∧
+      v ^ 2 ≤ successProb ρ p (fun i => S * ((p i : ℂ) • ρ i) * S) ∧
+      successProb ρ p (fun i => S * ((p i : ℂ) • ρ i) * S) ≤ v := by
+  obtain ⟨S, hS, hSPS⟩ := Toq.Rand.inv_sqrt_exists _ hP
+  obtain ⟨hpovm, -⟩ := pgm_le_dual ρ p S hρ hp hS.isHermitian.eq hSPS
+  obtain ⟨M, hM, hMv⟩ := hv.1
+  refine ⟨S, hS, hSPS, hpovm, ?_, hv.2 ⟨_, hpovm, rfl⟩⟩
+  rw [← hMv]
+  exact minErr_sq_le_pgm_normalised ρ p S hρ htr hp hsum hS hSPS M hM
+
+/-- **Helstrom's bound is attained.**  For two Hermitian states the minimum-error value
+`½(p₀ tr ρ₀ + p₁ tr ρ₁) + ½ ‖p₀ρ₀ − p₁ρ₁‖₁` is the success probability of some measurement (a greatest element, not only a
+least upper bound). -/
+theorem helstrom_isGreatest (ρ : Fin 2 → Matrix (Fin d) (Fin d) ℂ) (p : Fin 2 → ℝ)
+    (hρ : ∀ i, (ρ i).IsHermitian) :
+    IsGreatest (minErrValues ρ p)
+      ((p 0 * (ρ 0).trace.re + p 1 * (ρ 1).trace.re) / 2
+        + Toq.Metrics.traceNormV ((p 0 : ℂ) • ρ 0 - (p 1 : ℂ) • ρ 1) / 2) := by
+  obtain ⟨v, hv⟩ := minErr_values_has_greatest ρ p (by norm_num : 0 < 2)
+  have := (helstrom_isLUB ρ p hρ).unique hv.isLUB
+  rwa [← this] at hv
+
+/-- **Perfect discrimination iff mutual orthogonality.**  For density operators with strictly positive priors summing to
+one: the minimum-error value is `1` (some measurement always identifies the state) **iff** `ρ_i ρ_j = 0` for all `i ≠ j`.
+This is what `is_distinguishable` decides (up to its tolerance). -/
+theorem minErr_eq_one_iff_orthogonal (ρ : Fin k → Matrix (Fin d) (Fin d) ℂ) (p : Fin k → ℝ)
+    (hρ : ∀ i, (ρ i).PosSemidef) (htr : ∀ i, (ρ i).trace = 1) (hp : ∀ i, 0 < p i) (hsum : ∑ i, p i = 1) :
+    IsGreatest (minErrValues ρ p) 1 ↔ ∀ i j, i ≠ j → ρ i * ρ j = 0 := by
+  constructor
+  · rintro ⟨⟨M, hM, hv⟩, -⟩ i j hij
+    have hcomp : ∀ i, 1 - M i = ∑ l ∈ Finset.univ.erase i, M l := fun i => by
+      rw [← hM.2]; exact me_sum_sub_eq_erase M i
+    have hcpsd : ∀ i, (1 - M i).PosSemidef := fun i => by
+      rw [hcomp i]; exact Matrix.posSemidef_sum _ fun l _ => hM.1 l
+    -- Σ p_i tr(ρ_i (1 − M_i)) = 0
+    have hterm : ∀ i, (ρ i * (1 - M i)).trace.re = 1 - (ρ i * M i).trace.re := fun i => by
+      rw [Matrix.mul_sub, Matrix.mul_one, Matrix.trace_sub, Complex.sub_re, htr i, Complex.one_re]
+    have hsum0 : ∑ i, p i * (ρ i * (1 - M i)).trace.re = 0 := by
+      have h1 : ∀ i ∈ Finset.univ, p i * (ρ i * (1 - M i)).trace.re = p i - p i * (ρ i * M i).trace.re :=
+        fun i _ => by rw [hterm i]; ring
+      rw [Finset.sum_congr rfl h1, Finset.sum_sub_distrib, hsum]
+      unfold successProb at hv
+      linarith
+    have hnn : ∀ i ∈ Finset.univ, 0 ≤ p i * (ρ i * (1 - M i)).trace.re :=
+      fun i _ => mul_nonneg (hp i).le (psd_trace_mul_nonneg (hρ i) (hcpsd i))
+    have hz : ∀ i, (ρ i * (1 - M i)).trace.re = 0 := fun i => by
+      have := (Finset.sum_eq_zero_iff_of_nonneg hnn).mp hsum0 i (Finset.mem_univ i)
+      rcases mul_eq_zero.mp this with h | h
+      · exact absurd h (hp i).ne'
+      · exact h
+    have hkeep : ∀ i, ρ i * M i = ρ i := fun i => by
+      have := me_psd_mul_eq_zero (hρ i) (hcpsd i) (hz i)
+      rw [Matrix.mul_sub, Matrix.mul_one, sub_eq_zero] at this
+      exact this.symm
+    -- ρ_i M_j = 0 for j ≠ i
+    have hoff : ρ i * M j = 0 := by
+      have h1 : ∑ l ∈ Finset.univ.erase i, (ρ i * M l).trace.re = 0 := by
+        have := hz i
+        rwa [hcomp i, Finset.mul_sum, Matrix.trace_sum, Complex.re_sum] at this
+      have h2 : ∀ l ∈ Finset.univ.erase i, 0 ≤ (ρ i * M l).trace.re :=
+        fun l _ => psd_trace_mul_nonneg (hρ i) (hM.1 l)
+      have h3 := (Finset.sum_eq_zero_iff_of_nonneg h2).mp h1 j
+        (Finset.mem_erase.mpr ⟨Ne.symm hij, Finset.mem_univ j⟩)
+      exact me_psd_mul_eq_zero (hρ i) (hM.1 j) h3
+    have hj : M j * ρ j = ρ j := by
+      have := congrArg Matrix.conjTranspose (hkeep j)
+      rwa [Matrix.conjTranspose_mul, (hM.1 j).isHermitian.eq, (hρ j).isHermitian.eq] at this
+    calc ρ i * ρ j = ρ i * (M j * ρ j) := by rw [hj]
+      _ = (ρ i * M j) * ρ j := by rw [Matrix.mul_assoc]
+      _ = 0 := by rw [hoff, Matrix.zero_mul]
+  · intro hO
+    exact minErr_orthogonal_eq_one ρ p hρ htr (fun i => (hp i).le) hsum hO
+
+/-! ## Unambiguous discrimination: the Gram-form program is the measurement problem (Eldar's reduction) -/
+
+/-- the pure state `|ψ_j⟩⟨ψ_j|` of the `j`-th column of `V` -/
+def pureState (V : Matrix (Fin d) (Fin k) ℂ) (j : Fin k) : Matrix (Fin d) (Fin d) ℂ := uaPure V j
+
+/-- `(M₀; M_1 … M_k)` is an unambiguous measurement for the columns `ψ_j` of `V`: PSD operators summing to the identity
+(`M₀` = "inconclusive") such that outcome `i` never occurs on a state `ψ_j`, `j ≠ i` -/
+def IsUnambMeasurement (V : Matrix (Fin d) (Fin k) ℂ) (M0 : Matrix (Fin d) (Fin d) ℂ)
+    (M : Fin k → Matrix (Fin d) (Fin d) ℂ) : Prop :=
+  M0.PosSemidef ∧ (∀ i, (M i).PosSemidef) ∧ M0 + ∑ i, M i = 1 ∧
+    ∀ i j, j ≠ i → (pureState V j * M i).trace = 0
+
+/-- success probabilities of unambiguous measurements: `Σ_i p_i ⟨ψ_i|M_i|ψ_i⟩` -/
+def unambMeasurementValues (V : Matrix (Fin d) (Fin k) ℂ) (p : Fin k → ℝ) : Set ℝ :=
+  {v | ∃ M0 M, IsUnambMeasurement V M0 M ∧ successProb (pureState V) p M = v}
+
+/-- **Eldar's reduction, measurement ⇒ Gram program.**  The conclusive probabilities `q_i = ⟨ψ_i|M_i|ψ_i⟩` of an unambiguous
+measurement form a feasible point of the Gram-form program (`q ≥ 0`, `VᴴV − diag q ⪰ 0`) with the same objective value. -/
+theorem unamb_gram_of_measurement (V : Matrix (Fin d) (Fin k) ℂ) (M0 : Matrix (Fin d) (Fin d) ℂ)
+    (M : Fin k → Matrix (Fin d) (Fin d) ℂ) (hM : IsUnambMeasurement V M0 M) :
+    UnambFeasible (Vᴴ * V) (fun i => (pureState V i * M i).trace.re) ∧
+      ∀ p : Fin k → ℝ, ∑ i, p i * (pureState V i * M i).trace.re = successProb (pureState V) p M := by
+  obtain ⟨h0, hpsd, hsum, hz⟩ := hM
+  have hrest : (1 - ∑ i, M i).PosSemidef := by
+    have : 1 - ∑ i, M i = M0 := by rw [← hsum]; abel
+    rw [this]; exact h0
+  have hz' : ∀ i j, j ≠ i → (Vᴴ * M i * V) j j = 0 := fun i j hji => by
+    rw [← ua_trace_pure_mul]; exact hz i j hji
+  obtain ⟨h1, h2⟩ := ua_gram_of_povm V M hpsd hrest hz'
+  have e : ∀ i, (pureState V i * M i).trace.re = ((Vᴴ * M i * V) i i).re := fun i => by
+    unfold pureState; rw [ua_trace_pure_mul]
+  refine ⟨⟨fun i => by show 0 ≤ (pureState V i * M i).trace.re; rw [e]; exact h1 i, ?_⟩, fun p => rfl⟩
+  simp only [e]
+  exact h2
+
+/-- **Eldar's reduction, Gram program ⇒ measurement.**  Every feasible point `q` of the Gram-form program is realised by an
+unambiguous measurement: with `W = V (VᴴV)⁺` (reciprocal states) and `M_i = q_i W e_i e_iᴴ Wᴴ`, `M₀ = 1 − Σ_i M_i`, one has
+`⟨ψ_j|M_i|ψ_j⟩ = q_i δ_ij`.  No independence assumption: for dependent states feasibility forces the `q_i` to vanish where
+needed. -/
+theorem unamb_measurement_of_gram (V : Matrix (Fin d) (Fin k) ℂ) (q : Fin k → ℝ)
+    (hq : UnambFeasible (Vᴴ * V) q) :
+    ∃ M0 M, IsUnambMeasurement V M0 M ∧ ∀ i, (pureState V i * M i).trace = (q i : ℂ) := by
+  refine ⟨1 - ∑ i, uaPovm V q i, uaPovm V q, ⟨uaPovm_rest_psd V q hq.2, uaPovm_psd V q hq.1, by abel, ?_⟩, ?_⟩
+  · intro i j hji
+    unfold pureState
+    rw [ua_trace_pure_mul, uaPovm_sandwich V q hq.1 hq.2, if_neg (Ne.symm hji)]
+  · intro i
+    unfold pureState
+    rw [ua_trace_pure_mul, uaPovm_sandwich V q hq.1 hq.2, if_pos rfl]
+
+/-- **The Gram-form program toqito solves is unambiguous discrimination.**  For arbitrary state vectors (columns of `V`) and
+priors, the objective values of feasible points of `max p·q, q ≥ 0, VᴴV − diag q ⪰ 0` are exactly the success probabilities of
+unambiguous measurements. -/
+theorem unamb_values_eq_measurement_values (V : Matrix (Fin d) (Fin k) ℂ) (p : Fin k → ℝ) :
+    unambValues (Vᴴ * V) p = unambMeasurementValues V p := by
+  ext v
+  constructor
+  · rintro ⟨q, hq, rfl⟩
+    obtain ⟨M0, M, hM, hv⟩ := unamb_measurement_of_gram V q hq
+    refine ⟨M0, M, hM, ?_⟩
+    unfold successProb
+    exact Finset.sum_congr rfl fun i _ => by rw [hv i, Complex.ofReal_re]
+  · rintro ⟨M0, M, hM, rfl⟩
+    obtain ⟨hf, hv⟩ := unamb_gram_of_measurement V M0 M hM
+    exact ⟨_, hf, hv p⟩
+
+/-- Merging the inconclusive outcome into outcome `j₀` turns an unambiguous measurement into an ordinary one that succeeds
+at least as often (priors `≥ 0`). -/
+theorem unamb_measurement_le_minErr (V : Matrix (Fin d) (Fin k) ℂ) (p : Fin k → ℝ) (hp : ∀ i, 0 ≤ p i)
+    (j0 : Fin k) (M0 : Matrix (Fin d) (Fin d) ℂ) (M : Fin k → Matrix (Fin d) (Fin d) ℂ)
+    (hM : IsUnambMeasurement V M0 M) :
+    ∃ M', IsPOVM M' ∧ successProb (pureState V) p M ≤ successProb (pureState V) p M' := by
+  obtain ⟨h0, hpsd, hsum, -⟩ := hM
+  refine ⟨fun i => M i + if i = j0 then M0 else 0, ⟨fun i => ?_, ?_⟩, ?_⟩
+  · show (M i + if i = j0 then M0 else 0).PosSemidef
+    split
+    · exact (hpsd i).add h0
+    · simpa using hpsd i
+  · rw [Finset.sum_add_distrib, Finset.sum_ite_eq' Finset.univ j0]
+    simp only [Finset.mem_univ, if_true]
+    rw [add_comm]; exact hsum
+  · unfold successProb
+    refine Finset.sum_le_sum fun i _ => mul_le_mul_of_nonneg_left ?_ (hp i)
+    rw [Matrix.mul_add, Matrix.trace_add, Complex.add_re]
+    have : 0 ≤ (pureState V i * if i = j0 then M0 else 0).trace.re := by
+      split
+      · exact psd_trace_mul_nonneg (uaPure_psd V i) h0
+      · simp
+    linarith
+
+/-- **The unambiguous value never exceeds the minimum-error value.**  For `k ≥ 1` pure states with priors `≥ 0`, every
+objective value of the Gram-form program is at most the success probability of some ordinary measurement on the states
+`|ψ_i⟩⟨ψ_i|`. -/
+theorem unamb_le_minErr (V : Matrix (Fin d) (Fin k) ℂ) (p : Fin k → ℝ) (hp : ∀ i, 0 ≤ p i) (hk : 0 < k)
+    (u : ℝ) (hu : u ∈ unambValues (Vᴴ * V) p) : ∃ m ∈ minErrValues (pureState V) p, u ≤ m := by
+  rw [unamb_values_eq_measurement_values] at hu
+  obtain ⟨M0, M, hM, rfl⟩ := hu
+  obtain ⟨M', hM', hle⟩ := unamb_measurement_le_minErr V p hp ⟨0, hk⟩ M0 M hM
+  exact ⟨_, ⟨M', hM', rfl⟩, hle⟩
+
+/-- Hence every minimum-error dual bound – in particular every `hi` accepted by `checkMinErrDual` – also bounds the
+unambiguous program, and the greatest unambiguous value is at most the greatest minimum-error value. -/
+theorem unamb_le_minErr_dual (V : Matrix (Fin d) (Fin k) ℂ) (p q : Fin k → ℝ) (hp : ∀ i, 0 ≤ p i) (hk : 0 < k)
+    (hq : UnambFeasible (Vᴴ * V) q) (Y : Matrix (Fin d) (Fin d) ℂ)
+    (hY : MinErrDualFeasible (pureState V) p Y) : ∑ i, p i * q i ≤ Y.trace.re := by
+  obtain ⟨m, ⟨M, hM, rfl⟩, hle⟩ := unamb_le_minErr V p hp hk _ ⟨q, hq, rfl⟩
+  exact hle.trans (minErr_weak_duality _ p M Y hM hY)
+
+theorem unamb_greatest_le_minErr_greatest (V : Matrix (Fin d) (Fin k) ℂ) (p : Fin k → ℝ) (hp : ∀ i, 0 ≤ p i)
+    (hk : 0 < k) (u m : ℝ) (hu : IsGreatest (unambValues (Vᴴ * V) p) u)
+    (hm : IsGreatest (minErrValues (pureState V) p) m) : u ≤ m := by
+  obtain ⟨m', hm', hle⟩ := unamb_le_minErr V p hp hk u hu.1
+  exact hle.trans (hm.2 hm')
+
+/-! ## The Gram-form program: gap formula and optimality conditions -/
+
+/-- **The duality gap of the Gram-form program.**  `Re tr(G Z) − Σ_i p_i q_i = Re tr((G − diag q) Z) + Σ_i q_i (Re Z_ii − p_i)`;
+for feasible `q`, `Z` both terms are non-negative. -/
+theorem unamb_gap_eq (G Z : Matrix (Fin k) (Fin k) ℂ) (p q : Fin k → ℝ) :
+    (G * Z).trace.re - ∑ i, p i * q i
+      = ((G - Matrix.diagonal fun i => (q i : ℂ)) * Z).trace.re + ∑ i, q i * ((Z i i).re - p i) := by
+  rw [Matrix.sub_mul, Matrix.trace_sub, Complex.sub_re, re_trace_diagonal_mul]
+  simp only [mul_sub, Finset.sum_sub_distrib]
+  have : ∑ i, q i * p i = ∑ i, p i * q i := Finset.sum_congr rfl fun i _ => mul_comm _ _
+  rw [this]
+  ring
+
+/-- **Primal and dual of the Gram-form program agree exactly under the Karush–Kuhn–Tucker conditions**: for feasible `q` and
+`Z`, `Σ_i p_i q_i = Re tr(G Z)` iff `(G − diag q) Z = 0` and `q_i (Re Z_ii − p_i) = 0` for every `i`; then `q` attains the
+maximum and `Z` the minimum. -/
+theorem unamb_primal_eq_dual_iff (G Z : Matrix (Fin k) (Fin k) ℂ) (p q : Fin k → ℝ)
+    (hq : UnambFeasible G q) (hZ : UnambDualFeasible p Z) :
+    ∑ i, p i * q i = (G * Z).trace.re ↔
+      (G - Matrix.diagonal fun i => (q i : ℂ)) * Z = 0 ∧ ∀ i, q i * ((Z i i).re - p i) = 0 := by
+  have hgap := unamb_gap_eq G Z p q
+  have h1 : 0 ≤ ((G - Matrix.diagonal fun i => (q i : ℂ)) * Z).trace.re := psd_trace_mul_nonneg hq.2 hZ.1
+  have h2 : ∀ i ∈ Finset.univ, 0 ≤ q i * ((Z i i).re - p i) :=
+    fun i _ => mul_nonneg (hq.1 i) (by linarith [hZ.2 i])
+  have h3 : 0 ≤ ∑ i, q i * ((Z i i).re - p i) := Finset.sum_nonneg h2
+  constructor
+  · intro h
+    have ha : ((G - Matrix.diagonal fun i => (q i : ℂ)) * Z).trace.re = 0 := by linarith
+    have hb : ∑ i, q i * ((Z i i).re - p i) = 0 := by linarith
+    exact ⟨me_psd_mul_eq_zero hq.2 hZ.1 ha,
+      fun i => (Finset.sum_eq_zero_iff_of_nonneg h2).mp hb i (Finset.mem_univ i)⟩
+  · rintro ⟨ha, hb⟩
+    rw [ha, Finset.sum_eq_zero fun i _ => hb i] at hgap
+    simp at hgap
+    linarith
+
+/-- … and then both are optimal. -/
+theorem unamb_optimal_of_kkt (G Z : Matrix (Fin k) (Fin k) ℂ) (p q : Fin k → ℝ)
+    (hq : UnambFeasible G q) (hZ : UnambDualFeasible p Z)
+    (h : (G - Matrix.diagonal fun i => (q i : ℂ)) * Z = 0 ∧ ∀ i, q i * ((Z i i).re - p i) = 0) :
+    IsGreatest (unambValues G p) (G * Z).trace.re ∧
+      ∀ Z', UnambDualFeasible p Z' → (G * Z).trace.re ≤ (G * Z').trace.re := by
+  have hv := (unamb_primal_eq_dual_iff G Z p q hq hZ).mpr h
+  refine ⟨⟨⟨q, hq, hv⟩, ?_⟩, fun Z' hZ' => ?_⟩
+  · rintro v ⟨q', hq', rfl⟩
+    exact unamb_weak_duality G Z p q' hq' hZ
+  · rw [← hv]
+    exact unamb_weak_duality G Z' p q hq hZ'
+
+/-- **Orthonormal states are identified unambiguously with certainty**: for `G = 1` the greatest value of the Gram-form
+program is `Σ_i p_i` (priors `≥ 0`). -/
+theorem unamb_orthonormal (p : Fin k → ℝ) (hp : ∀ i, 0 ≤ p i) :
+    IsGreatest (unambValues (1 : Matrix (Fin k) (Fin k) ℂ) p) (∑ i, p i) := by
+  constructor
+  · refine ⟨fun _ => 1, ⟨fun _ => zero_le_one, ?_⟩, by simp⟩
+    have : (1 : Matrix (Fin k) (Fin k) ℂ) - Matrix.diagonal (fun _ : Fin k => ((1 : ℝ) : ℂ)) = 0 := by
+      rw [Complex.ofReal_one, Matrix.diagonal_one, sub_self]
+    rw [this]; exact Matrix.PosSemidef.zero
+  · rintro v ⟨q, hq, rfl⟩
+    have := unamb_le_sum_prior 1 p q hp hq
+    simpa using this
+
+/-! ## The Gram-form program: strong duality for linearly independent states -/
+
+/-- the set of objective values `Re tr(G Z)` of dual-feasible points of the Gram-form program -/
+def unambDualValues (G : Matrix (Fin k) (Fin k) ℂ) (p : Fin k → ℝ) : Set ℝ :=
+  {v | ∃ Z : Matrix (Fin k) (Fin k) ℂ, UnambDualFeasible p Z ∧ (G * Z).trace.re = v}
+
+/-- **Strong duality of the Gram-form program with attainment on both sides**, for a positive definite Gram matrix (linearly
+independent states – the case in which unambiguous discrimination is possible at all) and strictly positive priors: some
+primal-feasible `q` and some dual-feasible `Z` have `Σ_i p_i q_i = Re tr(G Z)`.  (`Z` is a minimiser of the dual – it exists because
+`Re tr(G Z) ≥ λ_min(G) tr Z` makes the sublevel sets compact – and `q_i = Re (G Z)_ii / Re Z_ii`; `G − diag q ⪰ 0` is first-order
+optimality of `Z` along `t ↦ (1 − tC)(Z + t xxᴴ)(1 − tC) + t²K` for suitable real diagonal `C`, `K`.) -/
+theorem unamb_strong_duality (G : Matrix (Fin k) (Fin k) ℂ) (p : Fin k → ℝ) (hG : G.PosDef)
+    (hp : ∀ i, 0 < p i) :
+    ∃ (q : Fin k → ℝ) (Z : Matrix (Fin k) (Fin k) ℂ), UnambFeasible G q ∧ UnambDualFeasible p Z ∧
+      ∑ i, p i * q i = (G * Z).trace.re := by
+  obtain ⟨lam, hlam, hGl⟩ := ug_posDef_lower G hG
+  obtain ⟨q, Z, h1, h2, h3, h4, h5⟩ := ug_strong_duality_gen G p lam hlam hGl hp
+  exact ⟨q, Z, ⟨h1, h2⟩, ⟨h3, h4⟩, h5⟩
+
+/-- The same with the hypothesis in the form `G ⪰ λ·1`, `λ > 0` (a lower bound on the smallest eigenvalue of the Gram matrix). -/
+theorem unamb_strong_duality_of_lower (G : Matrix (Fin k) (Fin k) ℂ) (p : Fin k → ℝ) (lam : ℝ) (hlam : 0 < lam)
+    (hGl : (G - (lam : ℂ) • (1 : Matrix (Fin k) (Fin k) ℂ)).PosSemidef) (hp : ∀ i, 0 < p i) :
+    ∃ (q : Fin k → ℝ) (Z : Matrix (Fin k) (Fin k) ℂ), UnambFeasible G q ∧ UnambDualFeasible p Z ∧
+      ∑ i, p i * q i = (G * Z).trace.re := by
+  obtain ⟨q, Z, h1, h2, h3, h4, h5⟩ := ug_strong_duality_gen G p lam hlam hGl hp
+  exact ⟨q, Z, ⟨h1, h2⟩, ⟨h3, h4⟩, h5⟩
+
+/-- **Primal and dual of the unambiguous program agree**: for a positive definite Gram matrix and positive priors one number
+is both the greatest primal value and the least dual value. -/
+theorem unamb_primal_dual_agree (G : Matrix (Fin k) (Fin k) ℂ) (p : Fin k → ℝ) (hG : G.PosDef)
+    (hp : ∀ i, 0 < p i) :
+    ∃ v, IsGreatest (unambValues G p) v ∧ IsLeast (unambDualValues G p) v := by
+  obtain ⟨q, Z, hq, hZ, hv⟩ := unamb_strong_duality G p hG hp
+  refine ⟨(G * Z).trace.re, ⟨⟨q, hq, hv⟩, ?_⟩, ⟨⟨Z, hZ, rfl⟩, ?_⟩⟩
+  · rintro v ⟨q', hq', rfl⟩
+    exact unamb_weak_duality G Z p q' hq' hZ
+  · rintro v ⟨Z', hZ', rfl⟩
+    rw [← hv]
+    exact unamb_weak_duality G Z' p q hq hZ'
+
+/-- The same for the Gram matrix `VᴴV` of linearly independent state vectors (the columns of `V`: `V c = 0` only for
+`c = 0`) – what `vectors_to_gram_matrix` builds (`sd_gram_and_density`). -/
+theorem unamb_primal_dual_agree_vectors (V : Matrix (Fin d) (Fin k) ℂ) (p : Fin k → ℝ)
+    (hV : Function.Injective V.mulVec) (hp : ∀ i, 0 < p i) :
+    ∃ v, IsGreatest (unambValues (Vᴴ * V) p) v ∧ IsLeast (unambDualValues (Vᴴ * V) p) v :=
+  unamb_primal_dual_agree _ p (Matrix.PosDef.conjTranspose_mul_self V hV) hp
+
+/-- **No duality gap for any ensemble of pure states and any prior.**  For every PSD Gram matrix (linearly dependent states
+included) and priors `≥ 0` (zeros included), the maximum of the primal Gram-form program is attained and equals the infimum of
+the dual values `Re tr(G Z)`: primal and dual of the unambiguous program agree.  (Limit `ε → 0` of `unamb_strong_duality` for
+`G + ε·1`, `p + ε`; the dual infimum need not be attained for dependent states.) -/
+theorem unamb_no_gap (G : Matrix (Fin k) (Fin k) ℂ) (p : Fin k → ℝ) (hG : G.PosSemidef) (hp : ∀ i, 0 ≤ p i) :
+    IsGreatest (unambValues G p) (sInf (unambDualValues G p)) ∧
+      sSup (unambValues G p) = sInf (unambDualValues G p) := by
+  have e : unambDualValues G p = ugDualValues G p := rfl
+  obtain ⟨q, hq0, hq1, hv⟩ := ug_no_gap_gen G p hG hp
+  have hgr : IsGreatest (unambValues G p) (sInf (unambDualValues G p)) := by
+    rw [e]
+    refine ⟨⟨q, ⟨hq0, hq1⟩, hv⟩, ?_⟩
+    rintro v ⟨q', hq', rfl⟩
+    refine le_csInf (ugDualValues_nonempty G p hp) ?_
+    rintro w ⟨Z, hZ, rfl⟩
+    exact unamb_weak_duality G Z p q' hq' hZ
+  exact ⟨hgr, hgr.csSup_eq⟩
+
+/-! ## Two pure states with arbitrary priors (Jaeger–Shimony) -/
+
+/-- **Two pure states, one of them too unlikely to be worth identifying.**  For the Gram matrix of two unit vectors with
+overlap `s` (`|s| ≤ 1`) and priors with `p₀ ≤ |s|² p₁`, the greatest value of the Gram-form program is `p₁ (1 − |s|²)`: it is
+attained at `q = (0, 1 − |s|²)` (state 0 is never announced), and the dual point `Z = p₁ (−s, 1)(−s, 1)ᴴ` shows that no feasible
+point does better. -/
+theorem unamb_two_states_unbalanced (s : ℂ) (hs : ‖s‖ ≤ 1) (p : Fin 2 → ℝ) (hp1 : 0 ≤ p 1)
+    (h : p 0 ≤ ‖s‖ ^ 2 * p 1) : IsGreatest (unambValues (gram2 s) p) (p 1 * (1 - ‖s‖ ^ 2)) := by
+  have hs2 : ‖s‖ ^ 2 ≤ 1 := by nlinarith [norm_nonneg s]
+  constructor
+  · refine ⟨![0, 1 - ‖s‖ ^ 2], ⟨fun i => ?_, ?_⟩, ?_⟩
+    · fin_cases i
+      · simp
+      · simpa using hs2
+    · have e : gram2 s - Matrix.diagonal (fun i : Fin 2 => (((![0, 1 - ‖s‖ ^ 2] : Fin 2 → ℝ) i : ℝ) : ℂ))
+          = !![1, s; (starRingEnd ℂ) s, ((‖s‖ ^ 2 : ℝ) : ℂ)] := by
+        ext i j
+        fin_cases i <;> fin_cases j <;> simp [gram2]
+      rw [e]; exact ua_two_rank_one_a s
+    · rw [Fin.sum_univ_two]; simp
+  · rintro v ⟨q, hq, rfl⟩
+    have hZ0 := ua_two_smul_psd (ua_two_rank_one_b (-s)) (p 1) hp1
+    have hd : UnambDualFeasible p (((p 1 : ℝ) : ℂ) • !![((‖-s‖ ^ 2 : ℝ) : ℂ), -s; (starRingEnd ℂ) (-s), 1]) := by
+      refine ⟨hZ0, fun i => ?_⟩
+      fin_cases i
+      · have e : ((‖s‖ : ℂ) ^ 2).re = ‖s‖ ^ 2 := by rw [← Complex.ofReal_pow, Complex.ofReal_re]
+        simpa [e, mul_comm] using h
+      · simp
+    have hw := unamb_weak_duality (gram2 s) _ p q hq hd
+    refine hw.trans (le_of_eq ?_)
+    rw [Matrix.mul_smul, Matrix.trace_smul, smul_eq_mul, Complex.re_ofReal_mul]
+    congr 1
+    unfold gram2
+    have hc : (starRingEnd ℂ) s * s = ((‖s‖ ^ 2 : ℝ) : ℂ) := by rw [mul_comm]; exact ua_two_mul_conj s
+    rw [ua_two_trace]
+    simp only [map_neg, mul_neg, ua_two_mul_conj, hc, norm_neg]
+    have e : ∀ x : ℝ, ((x : ℂ) + 1 + (-(x : ℂ) + -(x : ℂ))) = ((1 - x : ℝ) : ℂ) := by
+      intro x; push_cast; ring
+    rw [e, Complex.ofReal_re]
+
+/-- The mirror case `p₁ ≤ |s|² p₀`: the value is `p₀ (1 − |s|²)`. -/
+theorem unamb_two_states_unbalanced_swap (s : ℂ) (hs : ‖s‖ ≤ 1) (p : Fin 2 → ℝ) (hp0 : 0 ≤ p 0)
+    (h : p 1 ≤ ‖s‖ ^ 2 * p 0) : IsGreatest (unambValues (gram2 s) p) (p 0 * (1 - ‖s‖ ^ 2)) := by
+  have hs2 : ‖s‖ ^ 2 ≤ 1 := by nlinarith [norm_nonneg s]
+  constructor
+  · refine ⟨![1 - ‖s‖ ^ 2, 0], ⟨fun i => ?_, ?_⟩, ?_⟩
+    · fin_cases i
+      · simpa using hs2
+      · simp
+    · have e : gram2 s - Matrix.diagonal (fun i : Fin 2 => (((![1 - ‖s‖ ^ 2, 0] : Fin 2 → ℝ) i : ℝ) : ℂ))
+          = !![((‖s‖ ^ 2 : ℝ) : ℂ), s; (starRingEnd ℂ) s, 1] := by
+        ext i j
+        fin_cases i <;> fin_cases j <;> simp [gram2]
+      rw [e]; exact ua_two_rank_one_b s
+    · rw [Fin.sum_univ_two]; simp
+  · rintro v ⟨q, hq, rfl⟩
+    have hZ0 := ua_two_smul_psd (ua_two_rank_one_a (-s)) (p 0) hp0
+    have hd : UnambDualFeasible p (((p 0 : ℝ) : ℂ) • !![1, -s; (starRingEnd ℂ) (-s), ((‖-s‖ ^ 2 : ℝ) : ℂ)]) := by
+      refine ⟨hZ0, fun i => ?_⟩
+      fin_cases i
+      · simp
+      · have e : ((‖s‖ : ℂ) ^ 2).re = ‖s‖ ^ 2 := by rw [← Complex.ofReal_pow, Complex.ofReal_re]
+        simpa [e, mul_comm] using h
+    have hw := unamb_weak_duality (gram2 s) _ p q hq hd
+    refine hw.trans (le_of_eq ?_)
+    rw [Matrix.mul_smul, Matrix.trace_smul, smul_eq_mul, Complex.re_ofReal_mul]
+    congr 1
+    unfold gram2
+    have hc : (starRingEnd ℂ) s * s = ((‖s‖ ^ 2 : ℝ) : ℂ) := by rw [mul_comm]; exact ua_two_mul_conj s
+    rw [ua_two_trace]
+    simp only [map_neg, mul_neg, ua_two_mul_conj, hc, norm_neg]
+    have e : ∀ x : ℝ, (1 + (x : ℂ) + (-(x : ℂ) + -(x : ℂ))) = ((1 - x : ℝ) : ℂ) := by
+      intro x; push_cast; ring
+    rw [e, Complex.ofReal_re]
+
+/-- **Two pure states, both worth identifying (Jaeger–Shimony).**  For priors `p₀ = a²`, `p₁ = b²` (`a, b > 0`) and overlap `s`
+with `|s| b ≤ a` and `|s| a ≤ b` (i.e. `|s| ≤ √(p₀/p₁)` and `|s| ≤ √(p₁/p₀)`), the greatest value of the Gram-form program is
+`p₀ + p₁ − 2 |s| √(p₀ p₁) = a² + b² − 2|s|ab`, attained at `q = (1 − |s| b/a, 1 − |s| a/b)`; the dual point is
+`Z = (a, −ūb)(a, −ūb)ᴴ`, `u = s/|s|`.  For `a = b` this is `unamb_two_states`. -/
+theorem unamb_two_states_balanced (s : ℂ) (a b : ℝ) (ha : 0 < a) (hb : 0 < b) (h0 : ‖s‖ * b ≤ a)
+    (h1 : ‖s‖ * a ≤ b) :
+    IsGreatest (unambValues (gram2 s) ![a ^ 2, b ^ 2]) (a ^ 2 + b ^ 2 - 2 * ‖s‖ * a * b) := by
+  have hab : 0 < a * b := mul_pos ha hb
+  constructor
+  · refine ⟨![1 - ‖s‖ * b / a, 1 - ‖s‖ * a / b], ⟨fun i => ?_, ?_⟩, ?_⟩
+    · fin_cases i
+      · show 0 ≤ 1 - ‖s‖ * b / a
+        rw [sub_nonneg, div_le_one ha]; exact h0
+      · show 0 ≤ 1 - ‖s‖ * a / b
+        rw [sub_nonneg, div_le_one hb]; exact h1
+    · have hbase := ua_two_congr (‖s‖ : ℂ) (‖s‖ : ℂ) s b a (by
+        have := ua_psd_two ‖s‖ s (le_refl _)
+        simpa using this)
+      have hsc := ua_two_smul_psd hbase (1 / (a * b)) (by positivity)
+      have e : gram2 s - Matrix.diagonal (fun i : Fin 2 => (((![1 - ‖s‖ * b / a, 1 - ‖s‖ * a / b] : Fin 2 → ℝ) i : ℝ) : ℂ))
+          = (((1 / (a * b) : ℝ)) : ℂ) • !![(b : ℂ) * b * (‖s‖ : ℂ), (b : ℂ) * a * s;
+              (starRingEnd ℂ) ((b : ℂ) * a * s), (a : ℂ) * a * (‖s‖ : ℂ)] := by
+        have ha' : (a : ℂ) ≠ 0 := by exact_mod_cast ha.ne'
+        have hb' : (b : ℂ) ≠ 0 := by exact_mod_cast hb.ne'
+        ext i j
+        fin_cases i <;> fin_cases j <;> simp [gram2] <;> field_simp
+      rw [e]; exact hsc
+    · rw [Fin.sum_univ_two]
+      simp only [Matrix.cons_val_zero, Matrix.cons_val_one]
+      field_simp
+      ring
+  · rintro v ⟨q, hq, rfl⟩
+    have hu : ‖-(s / (‖s‖ : ℂ))‖ ≤ 1 := by rw [norm_neg]; exact ua_norm_phase_le s
+    have hbase := ua_two_congr 1 1 (-(s / (‖s‖ : ℂ))) a b (by
+      have := ua_psd_two 1 (-(s / (‖s‖ : ℂ))) hu
+      simpa using this)
+    have hd : UnambDualFeasible ![a ^ 2, b ^ 2]
+        !![(a : ℂ) * a * 1, (a : ℂ) * b * -(s / (‖s‖ : ℂ));
+          (starRingEnd ℂ) ((a : ℂ) * b * -(s / (‖s‖ : ℂ))), (b : ℂ) * b * 1] := by
+      refine ⟨hbase, fun i => ?_⟩
+      fin_cases i
+      · simp [sq]
+      · simp [sq]
+    have hw := unamb_weak_duality (gram2 s) _ _ q hq hd
+    refine hw.trans (le_of_eq ?_)
+    have h1' := ua_mul_conj_phase s
+    have h2' : (starRingEnd ℂ) s * (s / (‖s‖ : ℂ)) = (‖s‖ : ℂ) := by
+      have := congrArg (starRingEnd ℂ) h1'
+      simpa [mul_comm] using this
+    unfold gram2
+    rw [ua_two_trace]
+    have e1 : s * (starRingEnd ℂ) ((a : ℂ) * b * -(s / (‖s‖ : ℂ))) = -((a : ℂ) * b * (‖s‖ : ℂ)) := by
+      rw [map_mul, map_mul, map_neg, Complex.conj_ofReal, Complex.conj_ofReal]
+      calc s * ((a : ℂ) * b * -(starRingEnd ℂ) (s / (‖s‖ : ℂ)))
+          = -((a : ℂ) * b * (s * (starRingEnd ℂ) (s / (‖s‖ : ℂ)))) := by ring
+        _ = _ := by rw [h1']
+    have e2 : (starRingEnd ℂ) s * ((a : ℂ) * b * -(s / (‖s‖ : ℂ))) = -((a : ℂ) * b * (‖s‖ : ℂ)) := by
+      calc (starRingEnd ℂ) s * ((a : ℂ) * b * -(s / (‖s‖ : ℂ)))
+          = -((a : ℂ) * b * ((starRingEnd ℂ) s * (s / (‖s‖ : ℂ)))) := by ring
+        _ = _ := by rw [h2']
+    rw [e1, e2]
+    simp
+    ring
+
+/-- The same in terms of the priors: for `p₀, p₁ > 0` with `|s|² p₁ ≤ p₀` and `|s|² p₀ ≤ p₁` the unambiguous value is
+`p₀ + p₁ − 2 |s| √(p₀ p₁)`.  Together with `unamb_two_states_unbalanced` / `unamb_two_states_unbalanced_swap` this gives the value
+for every pair of pure states and every prior, and in all three cases primal and dual optimum coincide. -/
+theorem unamb_two_states_jaeger_shimony (s : ℂ) (p0 p1 : ℝ) (hp0 : 0 < p0) (hp1 : 0 < p1)
+    (h0 : ‖s‖ ^ 2 * p1 ≤ p0) (h1 : ‖s‖ ^ 2 * p0 ≤ p1) :
+    IsGreatest (unambValues (gram2 s) ![p0, p1]) (p0 + p1 - 2 * ‖s‖ * Real.sqrt (p0 * p1)) := by
+  have ha : 0 < Real.sqrt p0 := Real.sqrt_pos.mpr hp0
+  have hb : 0 < Real.sqrt p1 := Real.sqrt_pos.mpr hp1
+  have ea : Real.sqrt p0 ^ 2 = p0 := Real.sq_sqrt hp0.le
+  have eb : Real.sqrt p1 ^ 2 = p1 := Real.sq_sqrt hp1.le
+  have hle : ∀ x y : ℝ, 0 < x → 0 < y → ‖s‖ ^ 2 * y ^ 2 ≤ x ^ 2 → ‖s‖ * y ≤ x := by
+    intro x y hx hy hxy
+    have : (‖s‖ * y) ^ 2 ≤ x ^ 2 := by rw [mul_pow]; exact hxy
+    exact (pow_le_pow_iff_left₀ (by positivity) hx.le (by norm_num)).mp this
+  have := unamb_two_states_balanced s (Real.sqrt p0) (Real.sqrt p1) ha hb
+    (hle _ _ ha hb (by rw [ea, eb]; exact h0)) (hle _ _ hb ha (by rw [ea, eb]; exact h1))
+  rw [ea, eb] at this
+  rw [Real.sqrt_mul hp0.le]
+  convert this using 2
+  ring
+
+/-! ## The hypotheses of the third part are satisfiable -/
+
+section Examples3
+
+/-- `minErr_hykl_iff` on a concrete non-trivial instance: for `|0⟩⟨0|`, `|1⟩⟨1|` with priors `(1/4, 3/4)` the projective
+measurement `(|0⟩⟨0|, |1⟩⟨1|)` has Lagrange operator `diag(1/4, 3/4)`, which is Hermitian and dominates both `p_i ρ_i`. -/
+example : let ρ : Fin 2 → Matrix (Fin 2) (Fin 2) ℂ := fun i => Matrix.diagonal fun j => if j = i then 1 else 0
+    let p : Fin 2 → ℝ := ![1 / 4, 3 / 4]
+    lagrangeOp ρ p ρ = Matrix.diagonal ![(1 / 4 : ℂ), 3 / 4] := by
+  intro ρ p
+  ext a b
+  fin_cases a <;> fin_cases b <;> simp [lagrangeOp, ρ, p, Fin.sum_univ_two, Matrix.diagonal_mul_diagonal]
+
+/-- hypotheses of `unamb_measurement_of_gram` / `unamb_le_minErr`: the unit vectors `(1, 0)`, `(3/5, 4/5)` (overlap `3/5`) with
+`q = (2/5, 2/5)`: `VᴴV − diag q = [[3/5, 3/5], [3/5, 3/5]]` is PSD -/
+example : let V : Matrix (Fin 2) (Fin 2) ℂ := !![1, 3 / 5; 0, 4 / 5]
+    UnambFeasible (Vᴴ * V) (fun _ => 2 / 5) := by
+  intro V
+  refine ⟨fun _ => by norm_num, ?_⟩
+  have e : Vᴴ * V - Matrix.diagonal (fun _ : Fin 2 => (((2 / 5 : ℝ)) : ℂ))
+      = (!![((3 / 5 : ℝ) : ℂ), ((3 / 5 : ℝ) : ℂ); (starRingEnd ℂ) ((3 / 5 : ℝ) : ℂ), ((3 / 5 : ℝ) : ℂ)] :
+          Matrix (Fin 2) (Fin 2) ℂ) := by
+    ext a b
+    fin_cases a <;> fin_cases b <;> simp [V, Matrix.mul_apply, Fin.sum_univ_two, Complex.conj_ofNat] <;> norm_num
+  rw [e]
+  refine ua_psd_two (3 / 5) ((3 / 5 : ℝ) : ℂ) ?_
+  rw [Complex.norm_real]
+  norm_num
+
+/-- hypothesis of `unamb_strong_duality_of_lower`: the Gram matrix with overlap `3i/5` dominates `2/5 · 1`
+(`G − 2/5 = [[3/5, s], [s̄, 3/5]]`, `|s| = 3/5`) -/
+example : (gram2 (⟨0, 3 / 5⟩ : ℂ) - (((2 / 5 : ℝ)) : ℂ) • (1 : Matrix (Fin 2) (Fin 2) ℂ)).PosSemidef := by
+  have hn : ‖(⟨0, 3 / 5⟩ : ℂ)‖ ≤ 3 / 5 := by
+    have : (⟨0, 3 / 5⟩ : ℂ) = ((3 / 5 : ℝ) : ℂ) * Complex.I := by
+      apply Complex.ext <;> simp
+    rw [this, norm_mul, Complex.norm_I, Complex.norm_real]
+    norm_num
+  have h := ua_psd_two (3 / 5) (⟨0, 3 / 5⟩ : ℂ) hn
+  have e : gram2 (⟨0, 3 / 5⟩ : ℂ) - (((2 / 5 : ℝ)) : ℂ) • (1 : Matrix (Fin 2) (Fin 2) ℂ)
+      = !![((3 / 5 : ℝ) : ℂ), (⟨0, 3 / 5⟩ : ℂ); (starRingEnd ℂ) (⟨0, 3 / 5⟩ : ℂ), ((3 / 5 : ℝ) : ℂ)] := by
+    ext i j
+    fin_cases i <;> fin_cases j <;> simp [gram2] <;> norm_num
+  rw [e]; exact h
+
+end Examples3
+
+/-! # Fourth part: the code around the solver call (`Toq.Model.DiscrimArgs`) -/
+
+/-- **`vectors_to_gram_matrix` and `to_density_matrix` describe the same states.**  For vector arguments `ψ_j` (columns of
+`V = sdVecs k vs`) the Gram matrix the unambiguous programs use denotes `VᴴV`, and the density operator the minimum-error
+programs use for the `j`-th state denotes `|ψ_j⟩⟨ψ_j|` – exactly (whatever rounding the normalisation of the float vector
+suffered), PSD, so that all theorems above about `Vᴴ * V` and `pureState V` apply to what the code builds. -/
+theorem sd_gram_and_density (vs : Fin k → EMat d 1) :
+    (sdGramFn k vs).toM = (sdVecs k vs)ᴴ * sdVecs k vs ∧
+      (∀ j, (sdToDensityVec (vs j)).toM = pureState (sdVecs k vs) j) ∧
+      ∀ j, (sdToDensityVec (vs j)).toM.PosSemidef :=
+  ⟨toM_sdGramFn k vs, fun j => toM_sdToDensityVec k vs j, fun j => sdToDensityVec_psd' (vs j)⟩
+
+/-- **Certified form of "unambiguous `≤` minimum-error" on the code's own data.**  For vector arguments and priors `≥ 0`: a
+lower bound `lo` accepted by the unambiguous primal checker on `vectors_to_gram_matrix(vectors)` never exceeds an upper
+bound `hi` accepted by the minimum-error dual checker on `[to_density_matrix(v) …]`. -/
+theorem sd_unamb_le_minErr_certified (vs : Fin k → EMat d 1) (p q : Fin k → Rat) (L : EMat k k)
+    (Y : EMat d d) (LY : Fin k → EMat d d) (lo hi : Rat) (hp : ∀ i, 0 ≤ p i) (hk : 0 < k)
+    (hlo : checkUnambPrimalFn (sdGramFn k vs) p q L = some lo)
+    (hhi : checkMinErrDualFn k (fun i => sdToDensityVec (vs i)) p Y LY = some hi) : (lo : ℝ) ≤ (hi : ℝ) := by
+  obtain ⟨hq0, hq1, hv⟩ := checkUnambPrimalFn_sound _ _ _ _ _ hlo
+  obtain ⟨hY, hvY⟩ := checkMinErrDualFn_sound _ _ _ _ _ _ hhi
+  rw [toM_sdGramFn] at hq1
+  rw [← hv, ← hvY]
+  refine unamb_le_minErr_dual (sdVecs k vs) (fun i => ((p i : Rat) : ℝ)) (fun i => ((q i : Rat) : ℝ))
+    (fun i => by exact_mod_cast hp i) hk ⟨hq0, hq1⟩ Y.toM fun i => ?_
+  have := hY i
+  rwa [toM_sdToDensityVec] at this
+
+/-- The default prior `[1/n]*n` of `state_distinguishability` (`probs=None`) has `n` entries summing to `1`, and `sdPrepare`
+keeps the number of states. -/
+theorem sd_prepare_default (states : List (SdState d)) (hn : states.length ≠ 0) :
+    (sdPrepare states none).size = states.length ∧ (sdPrepare states none).probs.length = states.length ∧
+      (sdPrepare states none).probs.sum = 1 := by
+  refine ⟨by simp [sdPrepare, Ensemble.size], by simp [sdPrepare, sdDefaultProbs], ?_⟩
+  exact sdDefaultProbs_none_sum _ hn
+
+/-- Omitted keyword arguments select the minimum-error dual program; the four documented argument pairs select the four
+programs. -/
+theorem sd_dispatch :
+    sdDispatch sdDefaultStrategy sdDefaultPrimalDual = .meDual ∧
+      sdDispatch "min_error" "primal" = .mePrimal ∧ sdDispatch "min_error" "dual" = .meDual ∧
+      sdDispatch "unambiguous" "primal" = .uaPrimal ∧ sdDispatch "unambiguous" "dual" = .uaDual := by
+  decide
+
+/-- **Argument check.**  A non-empty list of arrays is accepted exactly when every array has the same
+`has_same_dimension`-size as the first one, the first one is a vector or a square matrix and – for the two Gram-form
+programs, whose worker starts with `vectors_to_gram_matrix` – all arrays have the shape of the first one; then the programs
+are built for `n = len(vectors)` states in the dimension of the first array. -/
+theorem sd_front_eq (s : SdShape) (rest : List SdShape) (probs : Option (List Rat)) (strategy pd : String) :
+    sdFront (s :: rest) probs strategy pd =
+      if (∀ t ∈ rest, t.cmpDim = s.cmpDim) ∧ ((sdDispatch strategy pd).isUnamb = true → ∀ t ∈ rest, t = s) then
+        s.vecMatDim.map fun dim =>
+          ⟨rest.length + 1, sdDefaultProbs (rest.length + 1) probs, dim, sdDispatch strategy pd⟩
+      else none := by
+  have hss : sdSameShape (s :: rest) = true ↔ ∀ t ∈ rest, t = s := by
+    simp [sdSameShape, List.all_eq_true]
+  by_cases h : ∀ t ∈ rest, t.cmpDim = s.cmpDim
+  · have := (sdHasSameDimension_true_iff s rest).mpr h
+    unfold sdFront
+    rw [this]
+    cases hd : s.vecMatDim with
+    | none => simp [hd]
+    | some dim =>
+      by_cases hu : (sdDispatch strategy pd).isUnamb = true
+      · by_cases h2 : ∀ t ∈ rest, t = s
+        · simp [hd, hu, hss.mpr h2]
+          exact ⟨h, h2⟩
+        · have : sdSameShape (s :: rest) = false := by
+            rw [Bool.eq_false_iff]; exact fun hh => h2 (hss.mp hh)
+          simp [hd, hu, h2, this]
+      · simp [hd, hu]
+        exact h
+  · have h2 : sdHasSameDimension (s :: rest) ≠ some true := fun hh => h ((sdHasSameDimension_true_iff s rest).mp hh)
+    rw [if_neg (fun hh => h hh.1)]
+    unfold sdFront
+    split
+    · next hh => exact absurd hh h2
+    · rfl
+
+/-- 1-D vectors of length `d`, `d × 1` columns and `1 × d` rows (`d ≥ 1`) are all accepted together by the minimum-error
+programs, and by the Gram-form programs when they all have the same layout; `dim = d`. -/
+theorem sd_front_vectors (s : SdShape) (rest : List SdShape) (probs : Option (List Rat)) (strategy pd : String)
+    (hd : 0 < d) (hs : ∀ t ∈ s :: rest, t = .d1 d ∨ t = .d2 d 1 ∨ t = .d2 1 d)
+    (hu : (sdDispatch strategy pd).isUnamb = true → ∀ t ∈ rest, t = s) :
+    sdFront (s :: rest) probs strategy pd =
+      some ⟨rest.length + 1, sdDefaultProbs (rest.length + 1) probs, d, sdDispatch strategy pd⟩ := by
+  have hc : ∀ t ∈ s :: rest, t.cmpDim = d := by
+    intro t ht
+    rcases hs t ht with h | h | h <;> subst h <;> simp [SdShape.cmpDim]
+  have hv : s.vecMatDim = some d := by
+    rcases hs s (List.mem_cons_self) with h | h | h <;> subst h
+    · rfl
+    · simp [SdShape.vecMatDim, Nat.max_eq_left hd]
+    · simp [SdShape.vecMatDim, Nat.max_eq_right hd]
+  rw [sd_front_eq, if_pos, hv]
+  · rfl
+  · refine ⟨fun t ht => ?_, hu⟩
+    rw [hc t (List.mem_cons_of_mem _ ht), hc s List.mem_cons_self]
+
+/-- `is_distinguishable`'s test `np.isclose(opt_val, 1)` is `|opt_val − 1| ≤ 10⁻⁸ + 10⁻⁵`. -/
+theorem sd_dist_test_iff (v : Rat) : sdDistTest v = true ↔ |v - 1| ≤ 1 / 100000000 + 1 / 100000 :=
+  sdDistTest_iff' v
+
+/-- **`is_distinguishable` answers `False` whenever a dual certificate separates the optimum from 1.**  If the dual checker
+accepts `hi` (so no measurement succeeds more often than `hi`) and the solver value `v` exceeds `hi` by at most `τ` with
+`hi + τ < 1 − 10⁻⁵ − 10⁻⁸`, the test fails. -/
+theorem sd_dist_test_false_of_dual (v hi τ : Rat) (hv : v ≤ hi + τ)
+    (hgap : hi + τ < 1 - 1 / 100000 - 1 / 100000000) : sdDistTest v = false := by
+  rw [Bool.eq_false_iff, Ne, sd_dist_test_iff, abs_le]
+  intro h
+  linarith [h.1]
+
+/-- … and `True` for every value within `10⁻⁵` of `1` (in particular for a value within the solver tolerance of the
+optimum `1` of mutually orthogonal states, `minErr_orthogonal_eq_one`). -/
+theorem sd_dist_test_true_of_near_one (v : Rat) (hv : |v - 1| ≤ 1 / 100000) : sdDistTest v = true := by
+  rw [sd_dist_test_iff]
+  linarith
 
 end Toq.C10
